@@ -81,6 +81,13 @@ mod lab {
 }
 
 const ROLES: [&str; 3] = ["minter", "burner", "r3"];
+/// In "long" runs the role the model calls "r3" is a symbol longer than nine characters (a host object, no longer a
+/// value packed into 64 bits): everything the library does with role names must not depend on their representation.
+const R3_LONG: &str = "r3_a_role_name_beyond_nine_chars";
+thread_local! { static LONG: std::cell::Cell<bool> = const { std::cell::Cell::new(false) }; }
+fn real_role(r: &str) -> &str {
+    if r == "r3" && LONG.with(|c| c.get()) { R3_LONG } else if r == "empty" { "" } else { r }
+}
 const ACCTS_EXEC: [&str; 4] = ["a", "b", "c", "d"];
 const ACCTS_DRIVE: [&str; 5] = ["a", "b", "c", "d", "e"];
 const PROBES: u32 = 3; // out-of-range indices probed: count, count+1, count+2
@@ -156,7 +163,7 @@ impl Sys {
     }
 
     fn sym(&self, r: &str) -> Symbol {
-        Symbol::new(&self.e, r)
+        Symbol::new(&self.e, real_role(r))
     }
 
     /// Set-up calls: each one carries exactly the admin's authorization for exactly that call.
@@ -200,7 +207,8 @@ impl Sys {
     }
 
     fn role_name(&self, s: &Symbol) -> String {
-        s.to_string()
+        let n = s.to_string();
+        if n == R3_LONG { "r3".to_string() } else { n }
     }
 
     /// Projection of the state through the public getters, for the whole universe.
@@ -274,7 +282,7 @@ impl Sys {
         let kind = s(op, "op");
         let addr = |k: &str| self.names.get(s(op, k));
         // the role name "empty" stands for the empty symbol (a legal Symbol, and the placeholder of the library's events)
-        let role = |k: &str| Symbol::new(e, if s(op, k) == "empty" { "" } else { s(op, k) });
+        let role = |k: &str| Symbol::new(e, real_role(s(op, k)));
         let now = seq(e);
         let (res, code) = match kind {
             "grant" => {
@@ -368,7 +376,7 @@ impl Sys {
 /// The reset op minus "op" comes back as `cfg` when a violation is replayed.
 fn reset_event(sys: &Sys, preset: &str, stock: i64) -> Value {
     json!({"op": {"op": "reset", "acct": "none", "role": "none", "arole": "none", "caller": "none", "auth": [],
-                  "preset": preset, "accts": sys.accts.len(), "stock": stock, "imp": sys.imp, "selfadmin": sys.selfadmin},
+                  "preset": preset, "accts": sys.accts.len(), "stock": stock, "imp": sys.imp, "selfadmin": sys.selfadmin, "long": LONG.with(|c| c.get())},
            "now": seq(&sys.e), "res": "ok", "err": 0, "obs": sys.obs()})
 }
 
@@ -465,6 +473,7 @@ fn main() {
                 let imp = b.cfg.get("imp").and_then(|v| v.as_str()).map(|x| x.to_string())
                     .unwrap_or_else(|| if bi % 2 == 1 { "lab".into() } else { "example".into() });
                 let selfadmin = b.cfg.get("selfadmin").and_then(|v| v.as_bool()).unwrap_or(false);
+                LONG.with(|c| c.set(b.cfg.get("long").and_then(|v| v.as_bool()).unwrap_or((bi / 2) % 2 == 1)));
                 let mut sys = Sys::new(accts, &preset, &stock, &imp, selfadmin);
                 t.reset(reset_event(&sys, &preset, k));
                 for op in &b.ops {
@@ -484,6 +493,7 @@ fn main() {
                 // every fifth "fresh" run: the contract is its own admin
                 let selfadmin = preset == "fresh" && (run / 3) % 5 == 4;
                 let stock: BTreeMap<String, u32> = if selfadmin { BTreeMap::new() } else { stock };
+                LONG.with(|c| c.set((run / 6) % 2 == 1));
                 let mut sys = Sys::new(accts, preset, &stock, if (run / 3) % 2 == 1 { "lab" } else { "example" }, selfadmin);
                 let reset = reset_event(&sys, preset, DRIVE_STOCK as i64);
                 let mut v = view(&reset["obs"]);
